@@ -10,6 +10,7 @@ fixpoint, branches with constant pruning and facet refinement.
 from __future__ import annotations
 
 import ast
+import hashlib
 import itertools
 
 from .source import AnalysisError, ClassInfo, FunctionInfo, Project, norm_text
@@ -61,7 +62,7 @@ class AV:
     def __repr__(self):
         items = []
         for k, v in self.f.items():
-            if k in ('deps', 'node', 'fn', 'clsinfo'):
+            if k in ('deps', 'node', 'fn', 'clsinfo', 'sx'):
                 continue
             if k == 'elts':
                 v = f'[{len(v)}]'
@@ -70,6 +71,9 @@ class AV:
 
 
 TOP = AV()
+_SX_NODES = (ast.BinOp, ast.Compare, ast.Call, ast.Subscript, ast.UnaryOp, ast.Attribute, ast.IfExp)
+_SX_TYS = frozenset([None, 'ndarray', 'float', 'int', 'Series', 'DataFrame', 'list', 'tuple', 'bool', 'Row', 'FloatWithUnit'])
+_SX_PARSE = {}
 
 
 def const(v):
@@ -258,6 +262,8 @@ class Interp:
         model.interp = self
         self.values = {}  # id(node) -> AV joined over all evaluations
         self.last = {}  # id(node) -> AV of the most recent evaluation
+        self._sx_cache = {}
+        self._sx_names = {}
         self.node_fn = {}  # id(node) -> FunctionInfo in which it was evaluated
         self.events = []
         self.stack = []  # (FunctionInfo, call node)
@@ -591,7 +597,18 @@ class Interp:
         t_st, f_st = self.refine(s.test, frame, st)
         a = self.exec_block(s.body, frame, t_st) if t_st is not None else None
         b = self.exec_block(s.orelse, frame, f_st) if f_st is not None else None
-        return join_state(a, b)
+        out = join_state(a, b)
+        if a is not None and b is not None:
+            # a scalar bound differently on the two branches stands for the conditional expression (alias-resilient text)
+            tsx = self.sx(s.test)
+            for k, va in a.env.items():
+                vb = b.env.get(k)
+                if vb is None or va.sx is None or vb.sx is None or va.sx == vb.sx or va.ty not in ('float', 'int', None) or vb.ty not in ('float', 'int', None):
+                    continue
+                txt = f'({va.sx}) if ({tsx}) else ({vb.sx})'
+                if len(txt) < 600 and k in out.env:
+                    out.env[k] = out.env[k].w(sx=txt)
+        return out
 
     def x_While(self, s, frame, st):
         frame.loops.append({'breaks': [], 'continues': []})
@@ -729,8 +746,70 @@ class Interp:
             v = m(node, frame, st)
             if v is None:
                 v = TOP
+            if type(node) in _SX_NODES and v.const is None and v.ty in _SX_TYS:
+                if not (isinstance(node, ast.Attribute) and v.sx is not None and (self.last.get(id(node.value)) or TOP).ty == 'obj'):
+                    v = v.w(sx=self.sx_build(node))
         self.values_store(node, v, frame)
         return v
+
+    # ---- symbolic expression text: alias-resilient identity of values (names bound to an expression stand for that expression)
+    def sx(self, node):
+        if node is None:
+            return None
+        v = self.last.get(id(node))
+        if v is not None and v.sx is not None:
+            return v.sx
+        return norm_text(node)
+
+    def sx_build(self, node):
+        subs = None
+        names = self._sx_names.get(id(node))
+        if names is None:
+            names = self._sx_names[id(node)] = [ch for ch in ast.walk(node) if isinstance(ch, ast.Name) and isinstance(ch.ctx, ast.Load)]
+        for ch in names:
+            if True:
+                cv = self.last.get(id(ch))
+                if cv is not None and cv.sx is not None and cv.sx != ch.id:
+                    if subs is None:
+                        subs = {}
+                    subs[id(ch)] = cv.sx
+        if not subs:
+            t = self._sx_cache.get(id(node))
+            if t is None:
+                t = self._sx_cache[id(node)] = norm_text(node)
+            return t
+        key = (id(node), tuple(sorted(subs.items())))
+        hit = self._sx_cache.get(key)
+        if hit is not None:
+            return hit
+
+        def sub(n):
+            if isinstance(n, ast.Name) and id(n) in subs:
+                txt = subs[id(n)]
+                tree = _SX_PARSE.get(txt)
+                if tree is None:
+                    try:
+                        tree = ast.parse(txt, mode='eval').body
+                    except SyntaxError:
+                        tree = ast.Name(id='H' + hashlib.sha1(txt.encode()).hexdigest()[:10], ctx=ast.Load())
+                    _SX_PARSE[txt] = tree
+                return tree
+            if isinstance(n, ast.AST):
+                new = type(n)()
+                for f, val in ast.iter_fields(n):
+                    setattr(new, f, sub(val))
+                return new
+            if isinstance(n, list):
+                return [sub(x) for x in n]
+            return n
+        try:
+            out = ast.unparse(sub(node))
+        except Exception:
+            out = norm_text(node)
+        if len(out) > 600:
+            out = 'H' + hashlib.sha1(out.encode()).hexdigest()[:12]
+        self._sx_cache[key] = out
+        return out
 
     def value_of(self, node):
         return self.values.get(id(node))
